@@ -31,9 +31,6 @@ from .. import aflat, common, flat, nfinal, runner
 from ..common import SLOT
 from ..runner import Exploration, Failure
 
-# the one open finding of C18 (known_findings.json F-C18-root-reads-machine-final)
-SIG_ROOT_FINAL = 'C18:_final_check:root-scope-reads-final-attribute-of-the-machine:self-model-with-event-named-final'
-
 WATCH = (SLOT['on_enter'], SLOT['on_final'], SLOT['after'])
 
 
@@ -107,7 +104,8 @@ def describe(p, ans=None):
     if ans is not None:
         out['lean_spec'] = [o - 1 for o in ans['spec'][0]]
         out['lean_code_model'] = 'AttributeError' if ans['code'] is None else [o - 1 for o in ans['code'][0]]
-        out['hypotheses'] = {'enteredWF': ans['wf'], 'machine_has_attribute_final': p.d.machine_final_attr()}
+        out['hypotheses'] = {'enteredWF': ans['wf']}
+        out['machine_has_attribute_final'] = p.d.machine_final_attr()
     return out
 
 
@@ -185,13 +183,9 @@ def settle(pend, ex, fails, keep=3):
         if p.probs:
             pos_only = all(('runs after' in x or 'not between' in x or 'configuration changes' in x) for x in p.probs)
             sig = 'C18.monitor.position' if pos_only else ('C18.monitor.raises' if attr_error(p) else 'C18.monitor')
-            # the open finding: the machine object has an attribute `final` (structural condition) AND the
-            # implementation raises exactly where the transcription of the code says it does
-            if sig == 'C18.monitor.raises' and p.d.machine_final_attr() and a['code'] is None and same:
-                sig = SIG_ROOT_FINAL
             bump(ex.stats, 'monitor_rejections', sig)
             kept[sig] = kept.get(sig, 0) + 1
-            if kept[sig] <= (1 if sig == SIG_ROOT_FINAL else keep):
+            if kept[sig] <= keep:
                 fails.append(Failure('monitor', 'fires-spec', p.case, describe(p, a), signature=sig))
 
 
@@ -793,8 +787,7 @@ class C18(runner.Check):
     level = 'proof'
     theorems = ('TM.C18_flat_exact', 'TM.C18_flat_history', 'TM.C18_flat_final_position',
                 'TM.C18_flat_no_final_otherwise', 'TM.C18_flat_tags_fresh', 'TM.C18_flat_reentrant_exact',
-                'TM.C18_flat_reentrant_event', 'TM.C18_nested_exact_partial', 'TM.C18_nested_exact_counterexample',
-                'TM.C18_nested_exact_counterexample_machine_final', 'TM.C18_nested_calls', 'TM.C18_nested_owner_iff',
+                'TM.C18_flat_reentrant_event', 'TM.C18_nested_exact', 'TM.C18_nested_calls', 'TM.C18_nested_owner_iff',
                 'TM.C18_nested_machine_last', 'TM.C18_nested_children_first', 'TM.C18_nested_once')
     manifest = dict(
         level='proof', design='DESIGN.md 4/C18 + design_notes/C18.md',
@@ -807,12 +800,10 @@ class C18(runner.Check):
              "transition starts exactly its destination's on_enter callbacks, on_final iff THAT destination is final, "
              "its after callbacks, wherever nested events left the model (tags are fresh: C18_flat_tags_fresh). Nested: the transcription of NestedTransition._final_check (loop variable doubling "
              "as return value included) against the declarative fires spec over all configuration trees, flag "
-             "placements and entered sets by structural induction: C18_nested_exact (the check never raises and "
-             "schedules exactly the owners that fire; states are paths, so copies of an embedded child machine's state "
-             "are distinct) holds for every machine object without an attribute named 'final' (C18_nested_exact_partial); "
-             "open finding F-C18-root-reads-machine-final with proved counterexample (machine as its own model with an "
-             "event named final); plus children-first / machine-last / once; the "
-             "defects repaired by 919a36b / 576f1fd / 56c10cf are regression examples in Lean and in the corpus. Tied to /repo by driving HierarchicalMachine and "
+             "placements and entered sets by structural induction: C18_nested_exact at full strength (the check never "
+             "raises and schedules exactly the owners that fire; states are paths, so copies of an embedded child "
+             "machine's state are distinct; the root scope reads nothing from the machine object), plus children-first / machine-last / once; the "
+             "defects repaired by 919a36b / 576f1fd / 56c10cf / 4b253dd are regression examples in Lean and in the corpus. Tied to /repo by driving HierarchicalMachine and "
              "HierarchicalAsyncMachine on random (depth <= 4, exclusive/parallel/partial-parallel) and all small trees, "
              "observing per executed transition the entered set, configuration and recorder calls (coroutine recorders "
              "that really suspend on the async class, with start and end): the fires spec "
@@ -825,8 +816,7 @@ class C18(runner.Check):
              "configuration are OBSERVED on the implementation (on_enter recorders, model.state), not modelled: how "
              "_resolve_transition computes them is C02/C03's subject; theorem hypothesis enteredWF (entered states are "
              "active afterwards; below an entered state everything active was entered) is checked on every observed "
-             "segment and reported. One open finding (F-C18-root-reads-machine-final), classified by signature only when "
-             "the machine object has the attribute AND the implementation raises exactly where the transcription does.",
+             "segment and reported. No open finding: every rejection is a VIOLATION.",
         technique='Lean 4 proof (mutual structural induction over configuration trees; acceptor analysis for the flat '
                   'engine) + differential correspondence of _final_check + spec monitor on observed transitions, '
                   'exhaustive small scope')
@@ -906,7 +896,7 @@ class C18(runner.Check):
         done = set()
         for f in ex.failures:
             key = (f.kind, f.what, f.signature)
-            if key in done or f.signature == SIG_ROOT_FINAL:     # the open finding has its minimal witness in the corpus
+            if key in done:
                 continue
             done.add(key)
             f.case = runner.shrink(f.case, self.fails_like(f), shrink_steps, budget=15 if f.what == 'hang' else 300)
